@@ -31,6 +31,7 @@ RULE += ("  Also: families mixmag (a narrow two-sided component next to siblings
 RULE += (" Equalities whose level lies in the last binade; consecutive points agreeing to 8-11 digits at problem level.")
 RULE += (' The same constraint objects reused with other limits before the call (translation follows the current limits).')
 RULE += (" Repeated coefficient rows with other limits, within one object and across objects.")
+RULE += (" Problem level: all variables fixed by the bounds (rows without columns still count in res.maxcv).")
 ASSUMPTIONS = [
     "wrong-direction infinite limits (lb=+inf / ub=-inf) are ambiguous in "
     "the statement (interval reading vs documented dropping): both readings "
@@ -472,9 +473,19 @@ def _run_case(case):
                         hi[i] = math.nan
                 lc["A"], lc["lb"], lc["ub"] = a.tolist(), lo.tolist(), \
                     hi.tolist()
+        if rng.random() < 0.1:
+            # every variable fixed by the bounds: the linear rows have no
+            # column left, their violation at the fixed point still counts
+            xf0 = np.asarray(spec["x0"], float) + rng.uniform(
+                -1, 1, spec["n"])
+            spec["bounds"] = {"lb": xf0.tolist(), "ub": xf0.tolist(),
+                              "form": "Bounds",
+                              "patterns": ["fixed"] * spec["n"]}
+            spec["options"].pop("nb_points", None)
+            counts["all_fixed_problems"] = 1
         rec = mrun.run(spec)
         pb = rec.run.pb
-        if pb is None or not pb.bounds.is_feasible or pb.n == 0:
+        if pb is None or not pb.bounds.is_feasible:
             return e2e.record(case, [], tags=["fam:problem", "skip"],
                               skipped=True)
         bt = rec.built
@@ -495,6 +506,10 @@ def _run_case(case):
                        else ""),
                     mechanism="nan_entries" if nan_entries else "plain",
                     spec=e2e.jsonable(spec)))
+        if pb.n == 0:
+            return e2e.record(case, viols[:5], tags=["fam:problem",
+                                                     "all_fixed"],
+                              counts=counts, nt=["problem:all_fixed"])
         xl = np.where(np.isfinite(pb.bounds.xl), pb.bounds.xl,
                       np.where(np.isfinite(pb.bounds.xu),
                                pb.bounds.xu - 3.0, -3.0))
